@@ -261,7 +261,16 @@ func runBank(id, repo, verif string) map[string]any {
 		return out
 	}
 	var names []string
+	silent := map[string]bool{} // behaviour-preserving refactorings written against this property: the check must stay silent
 	for n, v := range bank {
+		if strings.HasPrefix(n, "refactor-"+id+"-") {
+			names = append(names, n)
+			silent[n] = true
+			continue
+		}
+		if strings.HasPrefix(n, "refactor-") {
+			continue
+		}
 		for _, d := range v.DetectedBy {
 			if d == id {
 				names = append(names, n)
@@ -318,18 +327,27 @@ func runBank(id, repo, verif string) map[string]any {
 			child := exec.Command(self, "check", "-property", id, "-tier", "quick", "-repo", tmp+"/repo", "-verif", tmp+"/verif")
 			ob, _ := child.CombinedOutput()
 			r.Findings = strings.Count(string(ob), "VIOLATION property="+id)
-			if r.Findings > 0 {
+			switch {
+			case silent[n] && r.Findings == 0:
+				r.Result = "silent (as required for a behaviour-preserving refactoring)"
+			case silent[n]:
+				r.Result = "FALSE-ALARM"
+			case r.Findings > 0:
 				r.Result = "detected"
-			} else {
+			default:
 				r.Result = "MISSED"
 			}
 			results[i] = r
 		}(i, n)
 	}
 	wg.Wait()
-	killed, skipped := 0, 0
+	killed, skipped, quiet, alarms := 0, 0, 0, 0
 	for _, r := range results {
 		switch {
+		case strings.HasPrefix(r.Result, "silent"):
+			quiet++
+		case r.Result == "FALSE-ALARM":
+			alarms++
 		case r.Result == "detected":
 			killed++
 		case strings.HasPrefix(r.Result, "skipped"):
@@ -339,10 +357,15 @@ func runBank(id, repo, verif string) map[string]any {
 	out["variants"] = len(results)
 	out["detected"] = killed
 	out["skipped"] = skipped
-	out["missed"] = len(results) - killed - skipped
+	out["refactorings_silent"] = quiet
+	out["refactorings_false_alarm"] = alarms
+	out["missed"] = len(results) - killed - skipped - quiet - alarms
 	out["results"] = results
-	if len(results)-killed-skipped > 0 {
-		fmt.Printf("BANK-MISS property=%s %d seeded variant(s) recorded as detected were not detected on this run (see evidence)\n", id, len(results)-killed-skipped)
+	if alarms > 0 {
+		fmt.Printf("BANK-FALSE-ALARM property=%s %d behaviour-preserving refactoring(s) of the bank raise an alarm (see evidence)\n", id, alarms)
+	}
+	if len(results)-killed-skipped-quiet-alarms > 0 {
+		fmt.Printf("BANK-MISS property=%s %d seeded variant(s) recorded as detected were not detected on this run (see evidence)\n", id, len(results)-killed-skipped-quiet-alarms)
 	}
 	return out
 }
